@@ -3,7 +3,7 @@
    (model/MigrateValid.v: body_ok with its flags), for every definition, every UUID supply and every refactoring
    function tx. *)
 From Coq Require Import List NArith ZArith Bool String Lia.
-From Verif Require Import lib.Json gen.MigrationTable model.Migrate model.MigrateValid proofs.MigrateProofs.
+From Verif Require Import lib.Json gen.MigrationTable model.Migrate model.MigrateValid proofs.MigrateProofs proofs.MigrateTextProofs.
 Import ListNotations.
 Open Scope N_scope.
 
@@ -108,9 +108,9 @@ Definition same_at (ks : list str) (a b : obj) : Prop := forall k, In k ks -> ol
 Definition action_keys : list str :=
   [k_type; k_name; k_category; k_result_name; k_templating; k_template; k_template_variables].
 
-Lemma action_ok_ext : forall l g lim o a b, same_at action_keys a b -> action_ok g lim o a = action_ok g lim o b.
+Lemma action_ok_ext : forall g lim o a b, same_at action_keys a b -> action_ok g lim o a = action_ok g lim o b.
 Proof.
-  intros l g lim o a b H.
+  intros g lim o a b H.
   assert (Ht : olookup k_type a = olookup k_type b) by (apply H; cbn; tauto).
   assert (Hn : olookup k_name a = olookup k_name b) by (apply H; cbn; tauto).
   assert (Hc : olookup k_category a = olookup k_category b) by (apply H; cbn; tauto).
@@ -170,7 +170,9 @@ Proof.
   - apply (all_values_oset item_translation_ok); [exact H|]. cbn [item_translation_ok].
     apply (all_values_oset (fun v => string_array_ok (Some v))); [|apply string_array_strings].
     exact (item_of_translation lt uuid it H E).
-  - apply (all_values_oset item_translation_ok); [exact H|]. cbn. now rewrite string_array_strings.
+  - apply (all_values_oset item_translation_ok); [exact H|].
+    change (item_translation_ok (JObj [(prop, strings trans)])) with (string_array_ok (Some (strings trans)) && true).
+    now rewrite string_array_strings.
 Qed.
 
 Lemma delete_translation_ok : forall uuid prop lt,
@@ -201,4 +203,344 @@ Lemma loc_inv_map : forall fr loc f,
 Proof.
   intros fr loc f Hf H fr'. unfold loc_inv in *. cbn [snd] in *. destruct loc as [l|]; [|exact H].
   cbn [option_map] in *. now apply for_languages_ok.
+Qed.
+
+(* ---- from a step on nodes to the whole definition ---------------------------------------------------------------------- *)
+
+Lemma node_ok_lift : forall g lim o n, node_ok g lim o n = lift (fun x => node_ok g lim o (JObj x)) n.
+Proof. intros g lim o n. destruct n; reflexivity. Qed.
+
+Lemma forallb_ext_in : forall {A} (p q : A -> bool) l, (forall x, p x = q x) -> forallb p l = forallb q l.
+Proof. intros A p q l H. induction l as [|x l IH]; [reflexivity|]. cbn. now rewrite H, IH. Qed.
+
+Lemma language_ok_oset : forall lang k v f, k <> k_language -> language_ok lang (oset k v f) = language_ok lang f.
+Proof. intros lang k v f H. unfold language_ok. now rewrite olookup_oset_other. Qed.
+
+Lemma nodes_migration_valid : forall (lang g lim o g' lim' : bool) (node_step : mstate -> obj -> mstate * obj),
+  (forall st n, loc_inv st -> node_ok g lim o (JObj n) = true ->
+                loc_inv (fst (node_step st n)) /\ node_ok g' lim' o (JObj (snd (node_step st n))) = true) ->
+  forall fr f, body_ok lang g lim o f = true ->
+    body_ok lang g' lim' o (fst (with_localization (on_array_member k_nodes node_step) fr f)) = true.
+Proof.
+  intros lang g lim o g' lim' node_step Hstep fr f H.
+  unfold body_ok in H. apply andb_true_iff in H. destruct H as [H Hn]. apply andb_true_iff in H. destruct H as [Hl Hloc].
+  unfold with_localization.
+  set (st0 := (fr, get_obj k_localization f)).
+  assert (H0 : loc_inv st0).
+  { unfold loc_inv, st0, get_obj. cbn [snd]. destruct (olookup k_localization f) as [[| | | | |x]|]; try reflexivity. exact Hloc. }
+  assert (Hn' : member_all k_nodes (fun x => node_ok g lim o (JObj x)) f = true).
+  { unfold member_all. destruct (olookup k_nodes f) as [[| | | |l|]|]; try reflexivity.
+    erewrite forallb_ext_in; [exact Hn|]. intro x. symmetry. apply node_ok_lift. }
+  destruct (on_array_member_inv k_nodes node_step loc_inv _ (fun x => node_ok g' lim' o (JObj x)) Hstep st0 f H0 Hn') as [H1 H2].
+  pose proof (on_array_member_other k_nodes node_step st0 f) as Hother.
+  destruct (on_array_member k_nodes node_step st0 f) as [[fr' loc'] f']. cbn [fst snd] in *.
+  assert (Hnodes : match olookup k_nodes f' with Some (JArr l) => forallb (node_ok g' lim' o) l | _ => true end = true).
+  { unfold member_all in H2. destruct (olookup k_nodes f') as [[| | | |l|]|]; try reflexivity.
+    erewrite forallb_ext_in; [exact H2|]. intro x. apply node_ok_lift. }
+  assert (Hlang : language_ok lang f' = true).
+  { unfold language_ok. rewrite Hother by key_neq. exact Hl. }
+  unfold body_ok. destruct loc' as [l2|].
+  - rewrite language_ok_oset by key_neq. rewrite Hlang. rewrite olookup_oset_same.
+    rewrite (olookup_oset_other k_localization k_nodes) by key_neq.
+    unfold loc_inv in H1. cbn [snd option_map] in H1. rewrite H1. exact Hnodes.
+  - rewrite Hlang. rewrite (Hother k_localization) by key_neq. rewrite Hloc. exact Hnodes.
+Qed.
+
+(* a node step that only loops over the actions *)
+Lemma actions_step_valid : forall (g lim o g' : bool) (step : mstate -> obj -> mstate * obj),
+  (forall st a, loc_inv st -> action_ok g lim o a = true ->
+                loc_inv (fst (step st a)) /\ action_ok g' lim o (snd (step st a)) = true) ->
+  forall st n, loc_inv st -> node_ok g lim o (JObj n) = true ->
+    loc_inv (fst (on_array_member k_actions step st n))
+    /\ node_ok g' lim o (JObj (snd (on_array_member k_actions step st n))) = true.
+Proof.
+  intros g lim o g' step Hs st n Hst Hn. cbn [node_ok] in Hn. apply andb_true_iff in Hn. destruct Hn as [Ha Hr].
+  destruct (on_array_member_inv k_actions step loc_inv (action_ok g lim o) (action_ok g' lim o) Hs st n Hst) as [H1 H2].
+  { unfold member_all. destruct (olookup k_actions n) as [[| | | |l|]|]; try reflexivity.
+    erewrite forallb_ext_in; [exact Ha|]. intro x. destruct x; reflexivity. }
+  split; [exact H1|].
+  pose proof (on_array_member_other k_actions step st n k_router ltac:(key_neq)) as Hro.
+  destruct (on_array_member k_actions step st n) as [st' n']. cbn [fst snd] in *.
+  cbn [node_ok]. rewrite Hro, Hr, andb_true_r.
+  unfold member_all in H2. destruct (olookup k_actions n') as [[| | | |l|]|]; try reflexivity.
+  erewrite forallb_ext_in; [exact H2|]. intro x. destruct x; reflexivity.
+Qed.
+
+(* ---- Migrate13_1 --------------------------------------------------------------------------------------------------------- *)
+
+Definition plain_keys : list str := [k_type; k_name; k_category; k_result_name].
+
+(* the same action as far as validity goes, given what send_msg's template check says *)
+Lemma action_ok_ext2 : forall g g' lim o a b,
+  same_at plain_keys a b -> send_msg_ok g a = send_msg_ok g' b -> action_ok g lim o a = action_ok g' lim o b.
+Proof.
+  intros g g' lim o a b H Hs.
+  assert (Ht : olookup k_type a = olookup k_type b) by (apply H; cbn; tauto).
+  assert (Hn : olookup k_name a = olookup k_name b) by (apply H; cbn; tauto).
+  assert (Hc : olookup k_category a = olookup k_category b) by (apply H; cbn; tauto).
+  assert (Hr : olookup k_result_name a = olookup k_result_name b) by (apply H; cbn; tauto).
+  unfold action_ok, is_any_type, is_type, type_of, get_str, required_field, optional_field, string_field.
+  cbn [existsb]. unfold is_type, type_of, get_str.
+  now rewrite Ht, Hn, Hc, Hr, Hs.
+Qed.
+
+(* the templating object replaced by one with the same template member *)
+Lemma send_msg_ok_templating : forall g a t t',
+  get_obj k_templating a = Some t -> olookup k_template t' = olookup k_template t ->
+  send_msg_ok g (oset k_templating (JObj t') a) = send_msg_ok g a.
+Proof.
+  intros g a t t' Hg Ht. unfold send_msg_ok. destruct g.
+  - now rewrite !olookup_oset_other by key_neq.
+  - rewrite Hg. unfold get_obj. rewrite olookup_oset_same. now rewrite Ht.
+Qed.
+
+Lemma step_13_1_valid : forall g lim o st a, loc_inv st -> action_ok g lim o a = true ->
+  loc_inv (fst (step_13_1 st a)) /\ action_ok g lim o (snd (step_13_1 st a)) = true.
+Proof.
+  intros g lim o st a Hst Ha. unfold step_13_1.
+  destruct (is_type "send_msg" a) eqn:Et; [|auto].
+  destruct (get_obj k_templating a) as [t|] eqn:Eg; [|auto].
+  destruct (next_uuid (fst st)) as [u fr']. cbn [fst snd]. split; [exact Hst|].
+  rewrite <- Ha. apply action_ok_ext2.
+  - apply same_at_oset. not_key.
+  - apply (send_msg_ok_templating g a t); [exact Eg|]. apply olookup_oset_other. key_neq.
+Qed.
+
+Lemma migrate_13_1_valid : forall lang g lim o tx fr f,
+  body_ok lang g lim o f = true -> body_ok lang g lim o (fst (migrate_13_1 tx fr f)) = true.
+Proof.
+  intros lang g lim o tx fr f H. unfold migrate_13_1, for_actions.
+  apply (nodes_migration_valid lang g lim o g lim); [|exact H].
+  apply actions_step_valid. apply step_13_1_valid.
+Qed.
+
+(* ---- Migrate13_2 --------------------------------------------------------------------------------------------------------- *)
+
+Lemma und_len : Nat.eqb (List.length und) 3 = true.
+Proof. reflexivity. Qed.
+
+Lemma language_replaced_valid : forall g lim o f,
+  localization_ok (olookup k_localization f) = true ->
+  match olookup k_nodes f with Some (JArr l) => forallb (node_ok g lim o) l | _ => true end = true ->
+  body_ok true g lim o
+    (let f1 := oset k_language (JStr und) f in
+     match get_obj k_localization f1 with
+     | Some l => oset k_localization (JObj (odel und l)) f1
+     | None => f1
+     end) = true.
+Proof.
+  intros g lim o f Hloc Hn. cbv zeta. unfold get_obj. rewrite olookup_oset_other by key_neq.
+  destruct (olookup k_localization f) as [[| | | | |loc]|] eqn:Eloc; unfold body_ok, language_ok; cbn [negb orb].
+  1-5,7: (rewrite olookup_oset_same, und_len; rewrite !olookup_oset_other by key_neq; rewrite Eloc, Hloc, Hn; reflexivity).
+  rewrite (olookup_oset_other k_localization k_language) by key_neq. rewrite olookup_oset_same, und_len.
+  rewrite olookup_oset_same. rewrite !olookup_oset_other by key_neq. rewrite Hn.
+  cbn [localization_ok] in *. pose proof (all_values_odel language_translation_ok loc und Hloc) as Hd.
+  unfold all_values in Hd. now rewrite Hd.
+Qed.
+
+Lemma migrate_13_2_valid : forall lang g lim o tx fr f,
+  body_ok lang g lim o f = true -> body_ok true g lim o (fst (migrate_13_2 tx fr f)) = true.
+Proof.
+  intros lang g lim o tx fr f H. unfold migrate_13_2. cbv zeta.
+  unfold body_ok in H. apply andb_true_iff in H. destruct H as [H Hn]. apply andb_true_iff in H. destruct H as [_ Hloc].
+  match goal with |- context [if ?c then _ else _] => destruct c eqn:E3 end; cbn [fst].
+  - unfold body_ok, language_ok. cbn [negb orb]. unfold get_str in E3.
+    destruct (olookup k_language f) as [[| | |x| |]|]; try discriminate E3.
+    cbv iota beta in E3. cbv iota beta. now rewrite E3, Hloc, Hn.
+  - now apply language_replaced_valid.
+Qed.
+
+(* ---- Migrate13_4 --------------------------------------------------------------------------------------------------------- *)
+
+Lemma step_13_4_valid : forall g lim o st a, loc_inv st -> action_ok g lim o a = true ->
+  loc_inv (fst (step_13_4 st a)) /\ action_ok g lim o (snd (step_13_4 st a)) = true.
+Proof.
+  intros g lim o st a Hst Ha. unfold step_13_4.
+  destruct (is_type "send_msg" a) eqn:Et; [|auto].
+  destruct (get_obj k_templating a) as [t|] eqn:Eg; [|auto].
+  destruct (next_uuid (fst st)) as [u fr']. cbn [fst snd]. split.
+  - destruct st as [fr loc]. cbn [snd]. apply (loc_inv_map fr); [|exact Hst].
+    intros lt Hlt. destruct (get_translation (object_uuid t) k_variables lt); [|exact Hlt].
+    apply delete_translation_ok. now apply set_translation_ok.
+  - rewrite <- Ha. apply action_ok_ext2.
+    + apply same_at_oset. not_key.
+    + apply (send_msg_ok_templating g a t); [exact Eg|].
+      rewrite !olookup_odel_other by key_neq. apply olookup_oset_other. key_neq.
+Qed.
+
+Lemma migrate_13_4_valid : forall lang g lim o tx fr f,
+  body_ok lang g lim o f = true -> body_ok lang g lim o (fst (migrate_13_4 tx fr f)) = true.
+Proof.
+  intros lang g lim o tx fr f H. unfold migrate_13_4, for_actions.
+  apply (nodes_migration_valid lang g lim o g lim); [|exact H].
+  apply actions_step_valid. apply step_13_4_valid.
+Qed.
+
+(* ---- Migrate13_5 --------------------------------------------------------------------------------------------------------- *)
+
+Lemma language_13_5_ok : forall comps action_uuid lt,
+  language_translation_ok (JObj lt) = true -> language_translation_ok (JObj (language_13_5 comps action_uuid lt)) = true.
+Proof.
+  intros comps action_uuid lt H. unfold language_13_5.
+  set (step := fun (acc : obj * list str * bool) (c : str * list str) =>
+                 let '(lt, vars, localized) := acc in
+                 match get_translation (fst c) k_params lt with
+                 | Some ps => (delete_translation (fst c) k_params lt, vars ++ ps, true)
+                 | None => (lt, vars ++ snd c, localized)
+                 end).
+  assert (Hfold : forall cs acc, language_translation_ok (JObj (fst (fst acc))) = true ->
+                                 language_translation_ok (JObj (fst (fst (fold_left step cs acc)))) = true).
+  { induction cs as [|c cs IH]; intros [[lt0 vars0] loc0] H0; [exact H0|]. cbn [fold_left]. apply IH.
+    unfold step. destruct (get_translation (fst c) k_params lt0); cbn [fst] in *; [now apply delete_translation_ok | exact H0]. }
+  match goal with |- context [fold_left step comps ?acc] =>
+    specialize (Hfold comps acc H); destruct (fold_left step comps acc) as [[lt1 vars] localized] end.
+  cbn [fst] in Hfold. destruct localized; [now apply set_translation_ok | exact Hfold].
+Qed.
+
+Lemma action_ok_not_send_msg : forall g g' lim o a,
+  is_type "send_msg" a = false -> action_ok g lim o a = action_ok g' lim o a.
+Proof. intros g g' lim o a H. unfold action_ok. now rewrite H. Qed.
+
+(* before 13.5 was applied (merged = false); afterwards the template sits on the action *)
+Lemma step_13_5_valid : forall lim o st a, loc_inv st -> action_ok false lim o a = true ->
+  loc_inv (fst (step_13_5 st a)) /\ action_ok true lim o (snd (step_13_5 st a)) = true.
+Proof.
+  intros lim o st a Hst Ha. unfold step_13_5.
+  destruct (is_type "send_msg" a) eqn:Et.
+  - destruct (get_obj k_templating a) as [t|] eqn:Eg.
+    + cbn [fst snd]. split.
+      * destruct st as [fr loc]. cbn [fst snd]. apply (loc_inv_map fr); [|exact Hst]. intros lt. apply language_13_5_ok.
+      * erewrite action_ok_ext2 with (g' := false) (b := a); [exact Ha| |].
+        -- eapply same_at_trans; [apply same_at_odel; not_key|].
+           eapply same_at_trans; [apply same_at_oset; not_key|]. apply same_at_oset. not_key.
+        -- unfold send_msg_ok. rewrite Eg.
+           rewrite !olookup_odel_other by key_neq.
+           rewrite olookup_oset_same. rewrite (olookup_oset_other k_template_variables k_template) by key_neq.
+           rewrite olookup_oset_same. rewrite string_array_strings, andb_true_r.
+           destruct (olookup k_template t); reflexivity.
+    + split; [exact Hst|]. cbn [snd]. erewrite action_ok_ext2 with (g' := false) (b := a); [exact Ha|apply same_at_refl|].
+      unfold send_msg_ok. now rewrite Eg.
+  - split; [exact Hst|]. cbn [snd]. now rewrite (action_ok_not_send_msg true false).
+Qed.
+
+Lemma migrate_13_5_valid : forall lang lim o tx fr f,
+  body_ok lang false lim o f = true -> body_ok lang true lim o (fst (migrate_13_5 tx fr f)) = true.
+Proof.
+  intros lang lim o tx fr f H. unfold migrate_13_5, for_actions.
+  apply (nodes_migration_valid lang false lim o true lim); [|exact H].
+  apply actions_step_valid. apply step_13_5_valid.
+Qed.
+
+(* ---- Migrate13_6 --------------------------------------------------------------------------------------------------------- *)
+
+Lemma limit_member_field : forall k max o,
+  string_field k (limit_member k max o)
+  = match string_field k o with
+    | FText x => FText (if max <? utf8_len x then truncate x max else x)
+    | FBad => FBad
+    end.
+Proof.
+  intros k max o. unfold limit_member, string_field, get_str.
+  assert (H0 : max <? utf8_len [] = false) by (apply N.ltb_ge; cbn; lia).
+  destruct (olookup k o) as [[| | |x| |]|] eqn:E; rewrite ?E, ?H0; try reflexivity.
+  destruct (max <? utf8_len x); [now rewrite olookup_oset_same | now rewrite E].
+Qed.
+
+Lemma limit_member_same : forall ks k max o, ~ In k ks -> same_at ks (limit_member k max o) o.
+Proof.
+  intros ks k max o Hk. unfold limit_member. destruct (get_str k o) as [v|]; [|apply same_at_refl].
+  destruct (max <? utf8_len v); [now apply same_at_oset | apply same_at_refl].
+Qed.
+
+Lemma limit_member_other : forall k k' max o, k' <> k -> olookup k' (limit_member k max o) = olookup k' o.
+Proof.
+  intros k k' max o H. apply (limit_member_same [k'] k max o); [|now left]. intros [E|[]]. congruence.
+Qed.
+
+Lemma string_field_other : forall k k' max o, k' <> k -> string_field k' (limit_member k max o) = string_field k' o.
+Proof. intros k k' max o H. unfold string_field. now rewrite limit_member_other. Qed.
+
+Lemma chars_ascii_len : forall x, forallb result_name_char x = true -> utf8_len x = rune_len x.
+Proof.
+  unfold utf8_len, rune_len. induction x as [|c x IH]; intro H; [reflexivity|].
+  cbn [forallb] in H. apply andb_true_iff in H. destruct H as [Hc Hx]. cbn [fold_right List.length]. rewrite (IH Hx).
+  assert (utf8_width c = 1); [|lia]. unfold utf8_width, result_name_char in *. destruct (c <? 128) eqn:E; [reflexivity|]. lia.
+Qed.
+
+(* a result name that was acceptable before the limit is within it after limit_member *)
+Lemma limited_result_name : forall x,
+  result_name_ok false x = true ->
+  result_name_ok true (if max_result_name <? utf8_len x then truncate x max_result_name else x) = true.
+Proof.
+  intros x H. unfold result_name_ok in *.
+  apply andb_true_iff in H. destruct H as [H Hl]. apply andb_true_iff in H. destruct H as [Hne Hc].
+  destruct (max_result_name <? utf8_len x) eqn:E.
+  - assert (Hns : has_nonspace x = true).
+    { apply orb_true_iff in Hl. destruct Hl as [Hl|Hl]; [lia | exact Hl]. }
+    rewrite (truncate_nonempty x max_result_name Hns) by (unfold max_result_name; lia).
+    rewrite (forallb_truncate result_name_char x max_result_name Hc).
+    pose proof (truncate_length x max_result_name). cbn [andb]. lia.
+  - rewrite Hne, Hc. pose proof (rune_len_le_utf8_len x). cbn [andb]. lia.
+Qed.
+
+Lemma limited_category : forall x,
+  category_chars_ok x = true ->
+  let y := if max_category_name <? utf8_len x then truncate x max_category_name else x in
+  category_chars_ok y = true /\ rune_len y <= max_category_name.
+Proof.
+  intros x Hc. cbv zeta. destruct (max_category_name <? utf8_len x) eqn:E.
+  - split; [now apply forallb_truncate | apply truncate_length].
+  - split; [exact Hc|]. pose proof (rune_len_le_utf8_len x). lia.
+Qed.
+
+Lemma action_13_6_valid : forall g o st a, loc_inv st -> action_ok g false o a = true ->
+  loc_inv (fst (action_13_6 st a)) /\ action_ok g true o (snd (action_13_6 st a)) = true.
+Proof.
+  intros g o st a Hst Ha. unfold action_13_6. destruct (is_type "set_run_result" a) eqn:Et; cbn [fst snd]; (split; [exact Hst|]).
+  - unfold action_ok in *. rewrite Et in Ha.
+    assert (Et' : is_type "set_run_result" (limit_member k_category max_category_name (limit_member k_name max_result_name a)) = true).
+    { unfold is_type, type_of, get_str in *. now rewrite !limit_member_other by key_neq. }
+    rewrite Et'. apply andb_true_iff in Ha. destruct Ha as [Hn Hc]. apply andb_true_iff. split.
+    + unfold required_field in *. rewrite string_field_other by key_neq. rewrite limit_member_field.
+      destruct (string_field k_name a) as [|x]; [discriminate|]. now apply limited_result_name.
+    + unfold optional_field in *. rewrite limit_member_field. rewrite string_field_other by key_neq.
+      destruct (string_field k_category a) as [|x]; [discriminate|].
+      destruct x as [|c x]; [reflexivity|].
+      unfold result_category_ok in Hc. cbn [nonempty andb negb orb] in Hc. rewrite andb_true_r in Hc.
+      destruct (limited_category (c :: x) Hc) as [H1 H2].
+      destruct (if max_category_name <? utf8_len (c :: x) then truncate (c :: x) max_category_name else c :: x) as [|c' y] eqn:Ey;
+        [reflexivity|].
+      unfold result_category_ok. cbn [nonempty andb negb orb]. rewrite H1. cbn [andb]. lia.
+  - rewrite <- Ha. unfold action_ok. rewrite Et. reflexivity.
+Qed.
+
+Lemma router_13_6_valid : forall st r, loc_inv st -> router_ok false r = true ->
+  loc_inv (fst (router_13_6 st r)) /\ router_ok true (snd (router_13_6 st r)) = true.
+Proof.
+  intros st r Hst Hr. unfold router_13_6.
+  unfold router_ok in Hr. apply andb_true_iff in Hr. destruct Hr as [Hn Hc].
+  set (r1 := limit_member k_result_name max_result_name r).
+  assert (Hn1 : optional_field (result_name_ok true) k_result_name r1 = true).
+  { unfold optional_field, r1 in *. rewrite limit_member_field. destruct (string_field k_result_name r) as [|x]; [discriminate|].
+    destruct x as [|c x]; [reflexivity|].
+    pose proof (limited_result_name (c :: x) Hn) as H.
+    destruct (if max_result_name <? utf8_len (c :: x) then truncate (c :: x) max_result_name else c :: x); [reflexivity | exact H]. }
+  assert (Hc1 : member_all k_categories (fun c => category_ok false (JObj c)) r1 = true).
+  { unfold member_all, r1. rewrite limit_member_other by key_neq.
+    destruct (olookup k_categories r) as [[| | | |l|]|]; try reflexivity.
+    erewrite forallb_ext_in; [exact Hc|]. intro x. destruct x; reflexivity. }
+  destruct (on_array_member_inv k_categories (fun (st : mstate) c => (st, limit_member k_name max_category_name c)) loc_inv
+              (fun c => category_ok false (JObj c)) (fun c => category_ok true (JObj c))) with (st := st) (o := r1) as [H1 H2];
+    try assumption.
+  { intros st0 c Hst0 Hc0. cbn [fst snd]. split; [exact Hst0|]. cbn [category_ok] in *. rewrite limit_member_field.
+    destruct (string_field k_name c) as [|x]; [discriminate|]. cbn [negb orb].
+    destruct (max_category_name <? utf8_len x) eqn:E; [apply N.leb_le, truncate_length|].
+    pose proof (rune_len_le_utf8_len x). lia. }
+  split; [exact H1|].
+  pose proof (on_array_member_other k_categories (fun (st : mstate) c => (st, limit_member k_name max_category_name c)) st r1) as Ho.
+  destruct (on_array_member k_categories (fun (st : mstate) c => (st, limit_member k_name max_category_name c)) st r1) as [st' r2].
+  cbn [fst snd] in *. unfold router_ok. apply andb_true_iff. split.
+  - unfold optional_field, string_field in *. rewrite Ho by key_neq. exact Hn1.
+  - unfold member_all in H2. destruct (olookup k_categories r2) as [[| | | |l|]|]; try reflexivity.
+    erewrite forallb_ext_in; [exact H2|]. intro x. destruct x; reflexivity.
 Qed.
